@@ -6,6 +6,7 @@ from . import explore, native, build, models
 
 
 VERIF = build.VERIF
+OUT = os.environ.get('VERIF_OUT', VERIF)
 TIER_CAP = {'quick': 300, 'thorough': 2700}
 
 
@@ -41,6 +42,7 @@ def match_known(v, known):
 
 def gate(v):
     """native replay gate for one solver counterexample. returns ('confirmed'|'unconfirmable'|'mismatch', details)"""
+    if v.get('rel'): return native.rel_gate(v)
     kind, api = v['kind'], v['api']
     entry = native_entry(kind, api)
     data = bytes.fromhex(v['buf'])
@@ -83,7 +85,7 @@ def native_entry(kind, api):
 
 
 def write_replay(pid, v, status, details):
-    d = os.path.join(VERIF, 'replays'); os.makedirs(d, exist_ok=True)
+    d = os.path.join(OUT, 'replays'); os.makedirs(d, exist_ok=True)
     h = hashlib.sha256((v['prop'] + v['buf'] + str(v['flags']) + v['kind'] + v['api'] + str(v['cap']) + v['msg'][:40]).encode()).hexdigest()[:12]
     path = os.path.join(d, f'{pid}-{h}.json')
     rec = dict(v); rec['gate'] = status; rec['gate_details'] = details
@@ -220,8 +222,8 @@ def run_property(pid, tier, seed, module_name=None):
     if inconclusive: ev['coverage']['inconclusive'] = inconclusive[:10]
     if gate_fail: ev['coverage']['counterexamples_not_reproduced'] = [{'msg': v['msg'], 'replay': p, 'gate': st} for v, p, st, d in gate_fail[:5]]
     if known_lines: ev['coverage']['known_findings'] = known_lines
-    os.makedirs(os.path.join(VERIF, 'evidence'), exist_ok=True)
-    json.dump(ev, open(os.path.join(VERIF, 'evidence', f'{pid}.json'), 'w'), indent=1, default=str)
+    os.makedirs(os.path.join(OUT, 'evidence'), exist_ok=True)
+    json.dump(ev, open(os.path.join(OUT, 'evidence', f'{pid}.json'), 'w'), indent=1, default=str)
     for l in known_lines: print(l)
     for rep in job_reports:
         print(f"  [{rep.get('status')}] {rep['job']}: {rep.get('paths', 0)} paths, {rep.get('wall_s', 0)}s  ({rep['bound']})")
